@@ -1620,6 +1620,8 @@ func ExecGroupBy(query *Query, current []any) ([]any, error) {
 		return current, nil
 	}
 	grouped := make(map[*map[string]any][]any)
+	// groups in order of first appearance of their key
+	order := make([]*map[string]any, 0)
 	for _, item := range current {
 		innerMap := make(map[string]any)
 		for key := range query.groupDefinition {
@@ -1630,7 +1632,7 @@ func ExecGroupBy(query *Query, current []any) ([]any, error) {
 			innerMap[key] = rs
 		}
 		var ref *map[string]any
-		for group := range grouped {
+		for _, group := range order {
 			isMatch := true
 			for key, value := range innerMap {
 				if (*group)[key] != value {
@@ -1649,9 +1651,11 @@ func ExecGroupBy(query *Query, current []any) ([]any, error) {
 		}
 		grouped[&innerMap] = make([]any, 0)
 		grouped[&innerMap] = append(grouped[&innerMap], item)
+		order = append(order, &innerMap)
 	}
 	slice := make([]any, 0)
-	for key, item := range grouped {
+	for _, key := range order {
+		item := grouped[key]
 		current := make(Map)
 		for innerKey, innerValue := range *key {
 			current[innerKey] = innerValue
